@@ -201,7 +201,31 @@ def make_env(kind: str, templates: dict[str, str], counter: list[int], root: str
                 return await super().get_source_async(env, template_name, context=context, **kwargs)
 
         loader = SnippetsLoader2(root)
-    elif kind in ("choice-ctx-dict", "caching-choice-ctx-dict", "choice-fs-sync-override"):
+    elif kind in ("package", "package-sync-override"):
+        # templates of a Python package (the file tree of the case, made importable)
+        import importlib
+        import sys
+
+        from liquid2 import PackageLoader
+
+        parent, pkg = os.path.split(root.rstrip(os.sep))
+        init = os.path.join(root, "__init__.py")
+        if not os.path.exists(init):
+            open(init, "w").close()
+        if parent not in sys.path:
+            sys.path.insert(0, parent)
+        importlib.invalidate_caches()
+        if kind == "package":
+            loader = PackageLoader(pkg, package_path=".")
+        else:
+            class SnippetsPackageLoader(PackageLoader):
+                def get_source(self, env, template_name, *, context=None, **kwargs):  # noqa: ANN001
+                    if kwargs.get("tag") in ("include", "render") or kwargs.get("variant") == "alt":
+                        template_name = "snippets__/" + template_name
+                    return super().get_source(env, template_name, context=context, **kwargs)
+
+            loader = SnippetsPackageLoader(pkg, package_path=".")
+    elif kind in ("choice-ctx-dict", "caching-choice-ctx-dict", "choice-fs-sync-override", "choice-tag-first"):
         # load-context-aware loaders (docs/loading_templates.md, "Load context") that implement
         # get_source() ONLY, used as a delegate of a choice loader: the tag name and the keyword
         # arguments of get_template() must reach them on the async path too
@@ -220,7 +244,20 @@ def make_env(kind: str, templates: dict[str, str], counter: list[int], root: str
                 return super().get_source(env, template_name, context=context, **kwargs)
 
         both = {**templates, **{"snippets__/" + n: "S!" + t for n, t in templates.items()}}
-        if kind == "choice-ctx-dict":
+        if kind == "choice-tag-first":
+            # the first delegate answers only for partial-loading tags (the snippets convention),
+            # the second for everything: which delegate serves a name depends on the load
+            # context of THIS request, never on who served the name before
+            class TagOnlyLoader(DictLoader):
+                def get_source(self, env, template_name, *, context=None, **kwargs):  # noqa: ANN001
+                    if kwargs.get("tag") not in ("include", "render"):
+                        from liquid2.exceptions import TemplateNotFoundError
+
+                        raise TemplateNotFoundError(template_name)
+                    return super().get_source(env, template_name, context=context, **kwargs)
+
+            loader = ChoiceLoader([TagOnlyLoader({n: "S!" + t for n, t in templates.items()}), DictLoader(templates)])
+        elif kind == "choice-ctx-dict":
             loader = ChoiceLoader([DictLoader({}), CtxDictLoader(both)])
         elif kind == "caching-choice-ctx-dict":
             from liquid2 import CachingChoiceLoader
@@ -273,12 +310,12 @@ def env_variant(v: str) -> dict[str, Any]:
 
 
 DICT_KINDS = ["dict", "gated", "caching", "caching-ns", "gated-caching", "gated-uptodate", "gated-stale", "gated-stale-slow",
-              "choice-ctx-dict", "caching-choice-ctx-dict"]
+              "choice-ctx-dict", "caching-choice-ctx-dict", "choice-tag-first"]
 FS_KINDS = ["fs", "caching-fs", "choice", "fs-sync-override", "caching-fs-sync-override", "fs-both-override",
-            "choice-fs-sync-override"]
+            "choice-fs-sync-override", "package", "package-sync-override"]
 # loaders that look at the keyword arguments of get_template()
 KWARG_KINDS = {"choice-ctx-dict", "caching-choice-ctx-dict", "choice-fs-sync-override", "fs-sync-override",
-               "caching-fs-sync-override", "fs-both-override"}
+               "caching-fs-sync-override", "fs-both-override", "package-sync-override"}
 
 
 def outcome(fn) -> tuple:  # noqa: ANN001
@@ -415,11 +452,15 @@ class Work:
     def fs_root(self, templates: dict[str, str]) -> str:
         if self.tmp is None:
             self.tmp = tempfile.mkdtemp(prefix="vf-c03-")
-        root = tempfile.mkdtemp(dir=self.tmp)
+        root = tempfile.mkdtemp(dir=self.tmp, prefix="vfpkg")
         for name, src in templates.items():
-            # (a second copy for loaders that serve partials from a sub-directory)
+            # (a second copy for loaders that serve partials from a sub-directory; names
+            # without a suffix also under the package loader's default extension)
+            ext = "" if os.path.splitext(name)[1] else ".liquid"
             for p, text in ((os.path.join(root, name), src),
-                            (os.path.join(root, "snippets__", name), "S!" + src)):
+                            (os.path.join(root, "snippets__", name), "S!" + src),
+                            *(((os.path.join(root, name + ext), src),
+                               (os.path.join(root, "snippets__", name + ext), "S!" + src)) if ext else ())):
                 os.makedirs(os.path.dirname(p), exist_ok=True)
                 with open(p, "w", encoding="utf-8", newline="") as f:
                     f.write(text)
@@ -499,6 +540,17 @@ class Work:
             a2 = run_async(kind, lambda: _desc_async(env_a, name, g, desc))
             if s2 != a2:
                 ctx.violation(f"get_template-2nd:{_diffkind(s2, a2)}:{kind}", f"sync={_short(s2)} async={_short(a2)}",
+                              {"op": "get_template", "name": name, "templates": templates, "data": data, "kind": kind})
+            # the same name again, now through the partial-loading tags of a template rendered
+            # by the SAME environment (what an earlier direct load leaves behind in the loader
+            # must not decide who serves it now)
+            tagsrc = "{%% include '%s' %%}|{%% render '%s' %%}" % (name, name)
+            s4 = outcome(lambda: env_s.from_string(tagsrc).render(**copy.deepcopy(data)))
+            a4 = run_async(kind, lambda: env_a.from_string(tagsrc).render_async(**copy.deepcopy(data)))
+            ctx.ev(2)
+            ctx.count("load_then_tag_pairs")
+            if s4 != a4:
+                ctx.violation(f"load-then-tag:{_diffkind(s4, a4)}:{kind}", f"sync={_short(s4)} async={_short(a4)}",
                               {"op": "get_template", "name": name, "templates": templates, "data": data, "kind": kind})
             if kind in KWARG_KINDS:
                 # keyword arguments of get_template() are load context for the loader
@@ -699,7 +751,7 @@ def shards(tier: str, seed: int) -> list[dict[str, Any]]:
 def floors(tier: str) -> dict[str, int]:
     k = 1 if tier == "quick" else 15
     return {"sync_async_pairs": 1000 * k, "schedules_explored": 2000 * k, "schedule_sets_exhaustive": 50 * k,
-            "get_template_pairs": 200 * k, "get_template_pairs:load-context-kwargs": 40 * k, "analyze_pairs": 100 * k, "set:loader_kinds": 14,
+            "get_template_pairs": 200 * k, "get_template_pairs:load-context-kwargs": 40 * k, "analyze_pairs": 100 * k, "set:loader_kinds": 17, "load_then_tag_pairs": 200 * k,
             "sync_async_pairs:limits-tight": 60 * k, "sync_async_pairs:limits-mid": 60 * k, "error_pairs": 50 * k,
             "load_render_schedules": 300 * k}
 
